@@ -354,6 +354,23 @@ fn main() {
             check_pattern(t, &p, &bnames);
         });
     }
+    // typed-looking bounds: a bound is version text, whatever else it looks like (a dependency
+    // with its path, a file name, a URL): every character that is not part of the comparison
+    // rule is ignored, nothing is cut off
+    {
+        let vals: Vec<&str> = mc_core::chars::TYPED_VALUES.iter().copied().filter(|v| !v.contains(['<', '>', '{', '}'])).collect();
+        let mut extra: Vec<String> = vec!["1.0:../../a/b".into(), "1:../../x".into(), "1.0.tgz".into(), "1.0.tar.gz".into(), "1.0:a".into(), "1.0 ".into(), "1.0#c".into(), "1.0,2".into(), "1.0;2".into(), "1.0/2".into(), "1.0@2".into()];
+        extra.extend(vals.iter().map(|v| v.to_string()));
+        let tnames: Vec<String> = ["p-1.0", "p-1.0nb1", "p-1", "p-2", "p-0", "p-1.0.1", "p-10", "p-1.0a", "p-3"].iter().map(|s| s.to_string()).collect();
+        run.bound(format!("typed-looking bounds: {} bound texts in one- and two-bound patterns x {} names", extra.len(), tnames.len()));
+        par_items(&run, "C02 typed bounds", &extra, |_, b, t| {
+            for pat in [format!("p>{}", b), format!("p>={}", b), format!("p<{}", b), format!("p>=0<{}", b), format!("p>{}<9", b)] {
+                t.states += 1;
+                t.transitions += tnames.len() as u64;
+                check_pattern(t, &pat, &tnames);
+            }
+        });
+    }
     // (d) copies: a clone, and an object overwritten with clone_from, match like the pattern they
     // were copied from (every ordered pair of 16 patterns: the overwritten object was compiled
     // from the other one), for Pattern and for the standalone Dewey matcher
